@@ -124,6 +124,11 @@ def gen_cases(tier, rng):
             tail = " ".join("S:" + ",".join(pat(rng, rng.randrange(0, 40)) for _ in range(rng.randrange(1, 3)))
                             for _ in range(rng.randrange(1, 3)))
             cases.append("e%d_%d 1 S:%s;%d:%s %s" % (j, k, ",".join(pre), k, pat(rng, big), tail))
+            # the next writer's first record is itself fragmented (an orphan First/Middle must
+            # not leak into it), followed by small records
+            if 1 <= k < nf:
+                big2 = rng.choice([B + rng.randrange(0, 200), rng.randrange(B, 3 * B), 2 * (B - H) + rng.randrange(-3, 4)])
+                cases.append("g%d_%d 1 S:%s;%d:%s S:%s,%s" % (j, k, ",".join(pre), k, pat(rng, big), pat(rng, big2), pat(rng, rng.randrange(0, 40))))
             # two interrupted sessions in a row
             if k in (1, nf - 1) and rng.random() < 0.5:
                 cases.append("f%d_%d 1 S:%s;%d:%s S:;1:%s %s" % (j, k, ",".join(pre), k, pat(rng, big), pat(rng, B + 5), tail))
@@ -179,5 +184,6 @@ def classify(suite, case):
     if suite != "log":
         return suite
     fam = {"a": "boundary-sweep", "b": "session-splits", "c": "truncate-every-byte",
-           "d": "truncate-multiblock", "e": "interrupted-append", "f": "interrupted-twice"}
+           "d": "truncate-multiblock", "e": "interrupted-append", "f": "interrupted-twice",
+           "g": "interrupted-then-fragmented"}
     return fam.get(case[0], "corpus")
